@@ -207,7 +207,9 @@ func (e *Engine) rawForms() []rawForm {
 							syms = append(syms, toks[j])
 						}
 					}
-					cur = append(cur, syms)
+					if len(syms) > 0 {
+						cur = append(cur, syms)
+					}
 					k = j
 					continue
 				}
